@@ -392,12 +392,16 @@ var cfgPathByDesign = map[string]string{
 }
 
 func (e *testEnv) tie(form, what string, props []string, input interface{}) {
-	e.c.mu.Lock()
-	defer e.c.mu.Unlock()
-	b, _ := json.Marshal(map[string]interface{}{"property": "TIE", "props": props, "what": "cfgpath(" + form + "): " + what,
-		"input": input, "suite": e.c.name, "seed": e.c.seed})
-	fmt.Fprintln(e.c.mon, string(b))
-	e.c.mon.Flush()
+	e.c.tie(props, "cfgpath("+form+"): "+what, input)
+}
+
+// tie records a broken correspondence (not a property violation by itself) for the listed properties ("*" = all)
+func (c *suiteCtx) tie(props []string, what string, input interface{}) {
+	c.mu.Lock()
+	defer c.mu.Unlock()
+	b, _ := json.Marshal(map[string]interface{}{"property": "TIE", "props": props, "what": what, "input": input, "suite": c.name, "seed": c.seed})
+	fmt.Fprintln(c.mon, string(b))
+	c.mon.Flush()
 }
 
 // viaConfigPath returns the options the real loader produces for what a user would write to get `o`
